@@ -1,7 +1,9 @@
 package checks
 
 import (
+	"fmt"
 	"strconv"
+	"strings"
 
 	"kvqlverif/drive"
 	"kvqlverif/gen"
@@ -39,6 +41,7 @@ func (c12) Gates(tier string, m map[string]int64) []rt.Gate {
 		rt.GateMin("successful puts judged", m, "put_ok", 500),
 		rt.GateMin("successful removes judged", m, "remove_ok", 200),
 		rt.GateMin("failing expression at some position (all-or-nothing)", m, "failing_expr_cases", 200),
+		rt.GateMin("several-pair statements compared with their pairs one by one", m, "pair_independence_statements", 100),
 		rt.GateMin("duplicate keys in one statement", m, "dup_keys", 50),
 		rt.GateMin("value expressions using `key`", m, "value_uses_key", 200),
 		rt.GateMin("extra polls issued", m, "extra_polls", 1000),
@@ -105,7 +108,13 @@ func c12KeyExpr(r *rt.Rand) *gen.Node {
 }
 
 func c12ValExpr(r *rt.Rand) (*gen.Node, bool) {
-	switch r.Intn(11) {
+	switch r.Intn(14) {
+	case 11: // two concatenations starting at `key` alive at the same time
+		return gen.Bin("+", gen.Bin("+", gen.Key(), gen.Str("a")), gen.Bin("+", gen.Key(), gen.Str("b"))), true
+	case 12:
+		return gen.Bin("+", gen.Bin("+", gen.Key(), gen.Str("-")), gen.Call("lower", gen.Bin("+", gen.Key(), gen.Str("Z")))), true
+	case 13:
+		return gen.Bin("+", gen.Bin("+", gen.Key(), gen.Str(":")), gen.Call("str", gen.Call("strlen", gen.Bin("+", gen.Key(), gen.Str("abc"))))), true
 	case 9:
 		return gen.Call("len", gen.Call("split", gen.Key(), gen.Str([]string{"a", "k", "1"}[r.Intn(3)]))), true
 	case 10:
@@ -197,9 +206,89 @@ func (k c12) roundtrip(c *rt.Ctx) {
 	}
 }
 
+// independence: the pairs of one PUT are evaluated each by itself - whatever an expression means
+// (also `key` inside a key expression, which the documentation does not define), a pair writes in
+// a several-pair statement what it writes in a statement of its own.
+func (k c12) independence(c *rt.Ctx) {
+	r := c.R
+	rec := c.Rec
+	keyish := func() *gen.Node {
+		switch r.Intn(5) {
+		case 0:
+			return gen.Bin("+", gen.Key(), gen.Str([]string{"b", "id", "_x"}[r.Intn(3)]))
+		case 1:
+			return gen.Call("upper", gen.Bin("+", gen.Key(), gen.Str("id")))
+		case 2:
+			return gen.Bin("+", gen.Str("p"), gen.Call("str", gen.Call("strlen", gen.Key())))
+		case 3:
+			return gen.Bin("+", gen.Bin("+", gen.Str("q"), gen.Key()), gen.Str("r"))
+		}
+		return c12KeyExpr(r)
+	}
+	n := r.Range(2, 5)
+	var pairs [][2]*gen.Node
+	for i := 0; i < n; i++ {
+		ke := c12KeyExpr(r)
+		if i > 0 || r.Chance(1, 3) {
+			ke = keyish()
+		}
+		ve, _ := c12ValExpr(r)
+		pairs = append(pairs, [2]*gen.Node{ke, ve})
+	}
+	prior := []refstore.Pair{{K: "a", V: "1"}, {K: "ab", V: "old"}, {K: "z", V: "2"}}
+	mode := drive.Mode{Batch: r.Bool(), Size: 3, Cache: true}
+	type kv struct{ k, v string }
+	writesOf := func(q string) ([]kv, *drive.Outcome) {
+		st := refstore.New(prior)
+		o := drive.Run(q, st, mode)
+		rec.Eval(1)
+		var w []kv
+		for _, e := range st.Log() {
+			switch e.Op {
+			case refstore.OpPut:
+				w = append(w, kv{e.Key, e.Vals[0]})
+			case refstore.OpBatchPut:
+				for i := range e.Keys {
+					w = append(w, kv{e.Keys[i], e.Vals[i]})
+				}
+			}
+		}
+		return w, o
+	}
+	var alone []kv
+	var texts []string
+	for _, p := range pairs {
+		t := "(" + gen.Print(p[0]) + ", " + gen.Print(p[1]) + ")"
+		texts = append(texts, t)
+		w, o := writesOf("put " + t)
+		if o.Status() != "ok" || len(w) != 1 {
+			rec.NotJudged("a pair is not accepted or does not write exactly once in a statement of its own")
+			return
+		}
+		alone = append(alone, w[0])
+	}
+	q := "put " + strings.Join(texts, ", ")
+	together, o := writesOf(q)
+	rec.Inc("pair_independence_statements")
+	rec.DistinctS(q)
+	if o.Status() != "ok" {
+		c.Violation("valid-statement-failed", "put / pairs accepted one by one fail together", func() rt.D { return rt.D{"statement": q, "outcome": outcomeBrief(o)} })
+		return
+	}
+	if fmt.Sprint(together) != fmt.Sprint(alone) {
+		c.Violation("write-log", "put / a pair writes something else next to other pairs than in a statement of its own", func() rt.D {
+			return rt.D{"statement": q, "mode": mode.String(), "writes": fmt.Sprint(together), "writes_of_each_pair_alone": fmt.Sprint(alone)}
+		})
+	}
+}
+
 func (k c12) Run(c *rt.Ctx) {
 	if c.Case%20 == 7 {
 		k.roundtrip(c)
+		return
+	}
+	if c.Case%20 == 13 {
+		k.independence(c)
 		return
 	}
 	r := c.R
